@@ -27,7 +27,7 @@ def spd(rng, n, cond=10.0):
 
 
 def objective(rng, n, kinds=("quad", "quad", "abs", "rosen", "noisy", "sinq",
-                             "lin", "exp")):
+                             "lin", "exp", "plateau")):
     kind = str(rng.choice(list(kinds)))
     if kind == "quad":
         return {"kind": "quad", "Q": spd(rng, n, 30.0).tolist(),
